@@ -1,7 +1,8 @@
 (* PV.C11.Refuted — counter-models: for every guard conjunct that exists because the CODE fails,
    a concrete collection on which the unguarded statement is false (each reproduced on the real
-   pharmpy classes by the check: known findings C11-JOIN-FILL-ZERO-VARIANCE,
-   C11-JOIN-FILL-INBLOCK-ZERO, C11-UNJOIN-ORDER, C11-UCP-NEGATIVE-COVARIANCE). *)
+   pharmpy classes by the check: open findings C11-JOIN-FILL-INBLOCK-ZERO, C11-UNJOIN-ORDER), and
+   regression examples of the repaired behaviour for the two fixed ones (C11-JOIN-FILL-ZERO-VARIANCE
+   a9c876f, C11-UCP-NEGATIVE-COVARIANCE 859061b). *)
 From Coq Require Import List Bool PArith Arith Lia Reals Lra.
 From PV Require Import Base.PyData Base.Expr C11.Model C11.NumModel C11.NumProofs.
 Import ListNotations.
@@ -15,18 +16,12 @@ Definition vd : id := 14%positive. Definition ve : id := 15%positive. Definition
 (* a ~ N(0, 0), b ~ N(0, 7); join(['a','b'], fill=5) *)
 Definition zv_coll : coll nat := [Normal va L_IIV 0 0; Normal vb L_IIV 0 7].
 
-(* "every variance is preserved by join" is false without the guard: the variance 0 of a joined
-   variable is overwritten by the fill value *)
-Theorem join_variances_refuted :
-  exists (r r' : coll nat) inds fill ps x,
-    wf nat r = true /\ join nat 0 nz nmk inds fill None r = Ok (r', ps) /\ In x (names r) /\
-    nz fill = false /\ In x inds /\ variance nat 0 r x = Some 0 /\
-    variance nat 0 r' x <> variance nat 0 r x.
-Proof.
-  exists zv_coll, [Joint [va; vb] L_IIV [0; 0] [[5; 5]; [5; 7]]], [va; vb], 5, [], va.
-  repeat split; try (vm_compute; reflexivity); try (vm_compute; auto; fail).
-  vm_compute. intro H. discriminate.
-Qed.
+(* regression (finding C11-JOIN-FILL-ZERO-VARIANCE, fixed in a9c876f): the variance 0 of a joined variable
+   used to be overwritten by the fill value ([[5; 5]; [5; 7]]); now only the covariances are filled *)
+Example join_variances_fixed :
+  join nat 0 nz nmk [va; vb] 5 None zv_coll = Ok ([Joint [va; vb] L_IIV [0; 0] [[0; 5]; [5; 7]]], []) /\
+  variance nat 0 zv_coll va = Some 0.
+Proof. split; vm_compute; reflexivity. Qed.
 
 (* (a, b) ~ N(0, [[3, 0], [0, 4]]), c ~ N(0, 9); join(['a','b','c'], fill=5) *)
 Definition ib_coll : coll nat := [Joint [va; vb] L_IIV [0; 0] [[3; 0]; [0; 4]]; Normal vc L_IIV 0 9].
@@ -59,28 +54,12 @@ Proof.
   vm_compute. intro H. discriminate.
 Qed.
 
-(* ---- UCP round trip with a negative covariance ---------------------------------------------------
-   A = [[1, -1/2], [-1/2, 5/4]] has the Cholesky factor L = [[1, 0], [-1/2, 1]]; with all UCPs equal
-   to 0.1 the code returns [[1, +1/2], [+1/2, 5/4]]: _scale_matrix takes the absolute value of the
-   sub-diagonal of L and _descale_matrix cannot restore the sign. *)
+(* ---- regression (finding C11-UCP-NEGATIVE-COVARIANCE, fixed in 859061b) -----------------------------
+   A = [[1, -1/2], [-1/2, 5/4]] has the Cholesky factor L = [[1, 0], [-1/2, 1]]; with all UCPs equal to 0.1
+   the code used to return +1/2 for the covariance; now the round trip gives back -1/2 = (L L^T)_10. *)
 Local Open Scope R_scope.
 Definition Lneg : list (list R) := [[1; 0]; [- (1 / 2); 1]].
 Definition Utenth : list (list R) := [[/ 10; / 10]; [/ 10; / 10]].
-
-Lemma ucp_neg_value :
-  fget R 0 (descale_matrix R 0 Rplus Rmult exp Utenth
-              (scale_matrix R 0 Rplus Rminus Rmult Rdiv exp Rabs 10 (/ 10) Lneg)) 1 0 = 1 / 2.
-Proof.
-  rewrite ucp_general_lemma; try (cbn; lia); try reflexivity.
-  - rewrite rget_mmul by (cbn; lia).
-    assert (HA : length (absoff Lneg) = 2%nat) by reflexivity. rewrite HA. cbn [seq map].
-    rewrite !rget_transpose by (cbn; lia).
-    unfold absoff. rewrite !rget_rtab by (cbn; lia). cbn [Nat.ltb Nat.leb Nat.eqb length Lneg].
-    unfold fget, Lneg. cbn [nth]. unfold fsum. cbn [fold_left].
-    rewrite (Rabs_left (-(1/2))) by lra. lra.
-  - intros k Hk. cbn in Hk. destruct k as [|[|k]]; [reflexivity | reflexivity | lia].
-  - intros a b Hab Ha. cbn in Ha. left. destruct a as [|[|a]]; [lia | | lia]. destruct b as [|b]; [reflexivity | lia].
-Qed.
 
 Lemma ucp_neg_target : fget R 0 (mmul R 0 Rplus Rmult Lneg (transpose R 0 Lneg)) 1 0 = - (1 / 2).
 Proof.
@@ -88,23 +67,12 @@ Proof.
   unfold fget, Lneg. cbn [nth]. unfold fsum. cbn [fold_left]. lra.
 Qed.
 
-(* "from_ucp(scale(M), 0.1) == inits(M)" is false without the non-negativity guard of ucp_inverse *)
-Theorem ucp_inverse_refuted :
-  exists (U L : list (list R)) (i j : nat),
-    length U = length L /\
-    (forall a b, (a < b)%nat -> (b < length L)%nat -> fget R 0 L a b = 0) /\
-    (forall a b, (a < length L)%nat -> (b < length L)%nat -> fget R 0 U a b = / 10) /\
-    (exists a b, (b < a)%nat /\ (a < length L)%nat /\ fget R 0 L a b < 0) /\
-    (i < length L)%nat /\ (j < length L)%nat /\
-    fget R 0 (descale_matrix R 0 Rplus Rmult exp U
-                (scale_matrix R 0 Rplus Rminus Rmult Rdiv exp Rabs 10 (/ 10) L)) i j <>
-    fget R 0 (mmul R 0 Rplus Rmult L (transpose R 0 L)) i j.
+Example ucp_negative_covariance_fixed :
+  fget R 0 (descale_matrix R 0 Rplus Rmult exp Utenth
+              (scale_matrix R 0 Rplus Rminus Rmult Rdiv exp 10 (/ 10) Lneg)) 1 0 = - (1 / 2).
 Proof.
-  exists Utenth, Lneg, 1%nat, 0%nat. split; [reflexivity|]. split.
+  rewrite ucp_inverse_lemma; try (cbn; lia); try reflexivity; [apply ucp_neg_target | | |].
   - intros a b Hab Hb. cbn in Hb. destruct b as [|[|b]]; [lia | | lia]. destruct a as [|a]; [reflexivity | lia].
-  - split.
-    + intros a b Ha Hb. cbn in Ha, Hb. destruct a as [|[|a]]; destruct b as [|[|b]]; try lia; reflexivity.
-    + split.
-      * exists 1%nat, 0%nat. split; [lia|]. split; [cbn; lia|]. unfold fget, Lneg. cbn [nth]. lra.
-      * split; [cbn; lia|]. split; [cbn; lia|]. rewrite ucp_neg_value, ucp_neg_target. lra.
+  - intros k Hk. cbn in Hk. destruct k as [|[|k]]; [reflexivity | reflexivity | lia].
+  - intros a b Hab Ha. cbn in Ha. left. destruct a as [|[|a]]; [lia | | lia]. destruct b as [|b]; [reflexivity | lia].
 Qed.
